@@ -94,6 +94,9 @@ def case_strategy(draw, tier="quick"):
                           max_size=30))
     return {"kind": kind, "interval": iv, "mode": mode, "n": draw(st.integers(3, 8)),
             "ctor_start": draw(st.sampled_from([False, False, True])),
+            # positions of the iterable that hold a plain None (an item like any other)
+            "none_at": sorted(draw(st.sets(st.integers(0, 8), max_size=2)))
+            if kind == "iterable" and draw(st.booleans()) else [],
             "actions": [a for s in steps for a in s]}
 
 
@@ -134,14 +137,25 @@ def execute(case):
         elif kind == "periodic":
             src = instrument(from_periodic, h)(produce, poll_interval=case["interval"], **kw)
         elif kind == "iterable":
+            none_at = set(case.get("none_at", []))
+
             def gen():
                 for _ in range(case["n"] + 30):
                     if h.last_cmd == "stop" and h.cycle_while_stopped is None:
                         h.cycle_while_stopped = ("item pulled", log.now())
-                    yield produce()
+                    k = produce()
+                    yield None if k in none_at else k
             src = instrument(from_iterable, h)(gen(), **kw)
         elif kind == "q":
-            q = queue.Queue()
+            class Q(queue.Queue):
+                # one poll of the queue is one polling cycle: none may begin while stopped
+                def get_nowait(self_):
+                    item = queue.Queue.get_nowait(self_)
+                    if h.last_cmd == "stop" and h.cycle_while_stopped is None:
+                        h.cycle_while_stopped = ("item %r taken from the queue" % (item,),
+                                                 log.now())
+                    return item
+            q = Q()
             src = instrument(from_q, h)(q, sleep_time=case["interval"], **kw)
         else:
             fd, tmp = tempfile.mkstemp(suffix=".txt", dir=workdir())
@@ -260,7 +274,13 @@ def execute(case):
     def val(x):
         return int(x) if kind == "textfile" else x
     delivered = [val(e[3]) for e in ev if e[0] == "cc"]
-    if h.max_active <= 1:
+    none_at = set(case.get("none_at", [])) if kind == "iterable" else set()
+    if none_at and h.max_active <= 1:
+        exp = [None if k in none_at else k for k in h.produced]
+        if delivered != exp[:len(delivered)] or len(exp) - len(delivered) > 1:
+            v.append(("%s:%s:item-lost" % (ID, name), "items taken from the iterable %s, "
+                      "delivered %s" % (exp, delivered)))
+    elif h.max_active <= 1:
         if len(set(delivered)) != len(delivered):
             v.append(("%s:%s:item-delivered-twice" % (ID, name), "delivered %s" % delivered))
         elif delivered != sorted(delivered):
@@ -289,6 +309,7 @@ def execute(case):
                                       e[1], prevk)))
                         break
     classes = ["source:" + name, "consumer:" + case["mode"]] + \
+        (["None-item"] if none_at else []) + \
         (["started-by-constructor"] if case.get("ctor_start") else [])
     if restart_while_suspended:
         classes.append("stop-start-while-suspended")
